@@ -1,6 +1,7 @@
 package parser
 
 import (
+	"go/token"
 	"go/types"
 	"unicode"
 
@@ -81,5 +82,6 @@ func isValidIdentifier(id string) bool {
 			return false
 		}
 	}
-	return id != ""
+	// A keyword looks like an identifier but cannot name a variable.
+	return id != "" && !token.IsKeyword(id)
 }
